@@ -34,8 +34,11 @@ def random_progs(rng, q, n, maxsteps=5):
         steps = []
         for i in range(rng.randrange(1, maxsteps + 1)):
             last = 2 + i
-            steps.append({"op": rng.choice(["op", "op", "inv", "scal", "rerand", "shift", "equiv"]), "i": rng.choice([last, rng.randrange(1, last + 1)]),
-                          "j": rng.randrange(1, last + 1), "s": rng.choice([0, 1, q - 1, rng.randrange(q)])})
+            st = {"op": rng.choice(["op", "op", "opn", "inv", "scal", "rerand", "shift", "equiv"]), "i": rng.choice([last, rng.randrange(1, last + 1)]),
+                  "j": rng.randrange(1, last + 1), "s": rng.choice([0, 1, q - 1, rng.randrange(q)])}
+            if st["op"] == "opn":       # one variadic call with three to five operands
+                st["js"] = [rng.randrange(1, last + 1) for _ in range(rng.randrange(2, 5))]
+            steps.append(st)
         out.append({"lam": rng.randrange(2, q), "base": [[rng.randrange(q), rng.randrange(q)], [rng.choice([0, rng.randrange(q)]), rng.randrange(q)]], "steps": steps})
     return out
 
